@@ -164,13 +164,17 @@ func getStartCodePositions(stream []byte) (scNalus []scNalu, minStartCodeLength 
 // ConvertSampleToByteStream replaces 4-byte NALU lengths with start codes.
 // This function is codec agnostic.
 func ConvertSampleToByteStream(sample []byte) []byte {
-	sampleLength := uint32(len(sample))
-	var pos uint32 = 0
-	for pos < sampleLength {
-		naluLength := binary.BigEndian.Uint32(sample[pos : pos+4])
+	sampleLength := len(sample)
+	pos := 0
+	for pos+4 <= sampleLength {
+		naluLength := uint64(binary.BigEndian.Uint32(sample[pos : pos+4]))
 		startCode := []byte{0, 0, 0, 1}
 		copy(sample[pos:pos+4], startCode)
-		pos += naluLength + 4
+		pos += 4
+		if naluLength > uint64(sampleLength-pos) {
+			break // NALU length field points beyond the sample
+		}
+		pos += int(naluLength)
 	}
 	return sample
 }
